@@ -48,7 +48,7 @@ def frame_job(cfg):
         st2.__dict__.update({k: v for k, v in st.__dict__.items() if k != "phases"})
         try:
             got = adapt.gates_of(get_readout_circuit(st2, conn))
-            ok = got == ref
+            ok = adapt.circuit_key(got) == adapt.circuit_key(ref)
             why = "circuit differs" if not ok else ""
         except AttributeError as e:
             ok, why = None, str(e)          # the code touched .phases: the representation-hiding argument is withdrawn (UNDECIDED); the next clause decides natively
@@ -59,7 +59,7 @@ def frame_job(cfg):
         same = True
         for sv in svs:
             st3 = Stabilizer((R.copy(), S.copy(), np.array(sv, dtype=np.int8)))
-            same = same and adapt.gates_of(get_readout_circuit(st3, conn)) == ref
+            same = same and adapt.circuit_key(adapt.gates_of(get_readout_circuit(st3, conn))) == adapt.circuit_key(ref)
         out.append(("signs", same, f"signs:{n}:{conn}:{orb}", f"readout circuit on {n}-{conn} class orbit {orb} changes with the signs of the generators {labels}",
                     {"n": n, "connectivity": conn, "paulis": labels}))
     return out
